@@ -50,6 +50,19 @@ Definition mup_wf (v6 : bool) (m : mup) : Prop :=
       teid mod 256 ^ (4 - (el - 8 * w + 7) / 8) = 0
   end.
 
+Definition tlv_types_ok (l : list (N * list N)) : Prop := Forall (fun t => fst t < 65536) l.
+Definition ls_wf (n : lsn) : Prop :=
+  (* every length field has 16 bits: it is enough that the whole NLRI body fits *)
+  blen (enc_ls n) < 65540 /\
+  match n with
+  | LsNode p i l => p < 256 /\ i < 18446744073709551616 /\ tlv_types_ok l
+  | LsLink p i l r k => p < 256 /\ i < 18446744073709551616 /\ tlv_types_ok l /\ tlv_types_ok r /\ tlv_types_ok k
+  | LsPfx _ p i l k => p < 256 /\ i < 18446744073709551616 /\ tlv_types_ok l /\ tlv_types_ok k
+  | LsSrv6 p i l s =>
+      p < 256 /\ i < 18446744073709551616 /\ tlv_types_ok l /\ Forall (fun x => fst x < 65536 /\ blen (snd x) = 16) s
+  | LsOther ty b => ty < 65536 /\ (ls_known ty && (9 <=? blen b) = false)
+  end.
+
 (* a representable entry of the kind [k] *)
 Definition structured (k : skind) (e : pnlri) : Prop :=
   fst e < 4294967296 /\
@@ -69,6 +82,7 @@ Definition structured (k : skind) (e : pnlri) : Prop :=
   | SEvpn, NEvpn e => evpn_wf e
   | SSrp, NSrp d c ep => d < 4294967296 /\ c < 4294967296 /\ (blen ep = 4 \/ blen ep = 16)
   | SMup v6, NMup m => mup_wf v6 m
+  | SLs, NLs n => ls_wf n
   | _, _ => False
   end.
 
